@@ -50,3 +50,91 @@ allocate = Contract(
 )
 
 CONTRACTS = [allocate]
+
+
+# =================================================================================================
+# SignalAnalyzer._reserve_explicit_signal_names: every signal name that occurs anywhere in the IR — a node's own
+# type, a member of a constant bundle, the type of any operand reference at any nesting depth (condition rows,
+# merge sources, latch conditions, entity properties, inlined bundle conditions) — leaves the allocation pool.
+# The function reflects over vars(node) (outside the symbolic executor's subset), so the contract's executable twin is
+# evaluated on the REAL function for one node of every kind x every reference-carrying position: bounded.
+# =================================================================================================
+def _names_in(obj, out, depth=0):
+    """oracle: all explicit signal names reachable from an IR node (independent of the implementation's traversal)"""
+    from dsl_compiler.src.ir.nodes import BundleRef, SignalRef
+    if depth > 6:
+        return
+    if isinstance(obj, SignalRef):
+        out.add(str(obj.signal_type))
+    elif isinstance(obj, BundleRef):
+        out.update(str(t) for t in obj.signal_types)
+    elif isinstance(obj, dict):
+        for v in obj.values():
+            _names_in(v, out, depth + 1)
+    elif isinstance(obj, (list, tuple, set)):
+        for v in obj:
+            _names_in(v, out, depth + 1)
+    elif hasattr(obj, "__dict__") and type(obj).__module__.startswith("dsl_compiler"):
+        for k, v in vars(obj).items():
+            if k in ("source_ast", "debug_metadata"):
+                continue
+            if k in ("output_type", "signal_type") and isinstance(v, str):
+                out.add(v)
+            elif k == "signals" and isinstance(v, dict):
+                out.update(str(x) for x in v)
+            else:
+                _names_in(v, out, depth + 1)
+
+
+def _reserve_post(a, res):
+    want = set()
+    for op in a.ir_operations:
+        _names_in(op, want)
+    want = {n for n in want if not n.startswith("__")}
+    pool = set(a.self._available_signal_pool)
+    return not (want & pool) and want <= set(a.self._allocated_signals)
+
+
+reserve = Contract(
+    qualname=SA + "_reserve_explicit_signal_names",
+    params={"self": ty.TOpaque("analyzer"), "ir_operations": ty.TOpaque("ops")},
+    ensures=[("no explicit signal name of the IR stays in the allocation pool", _reserve_post)],
+    verify=False, properties=("C13",), note="evaluated on the real function over one node of every kind x reference position (bounded stand-in)")
+CONTRACTS = [allocate, reserve] if "allocate" in globals() else [reserve]
+
+
+def reserve_arg_sets():
+    from dsl_compiler.src.common.diagnostics import ProgramDiagnostics
+    from dsl_compiler.src.ir import nodes as N
+    from dsl_compiler.src.layout.signal_analyzer import SignalAnalyzer
+
+    def ref(name):
+        return N.SignalRef(name, "src_" + name)
+
+    def analyzer():
+        return SignalAnalyzer(ProgramDiagnostics(log_level="error"), {})
+    cases = []
+    names = ["signal-A", "signal-B", "signal-C", "signal-D", "signal-E"]
+
+    def add(node):
+        cases.append({"self": analyzer(), "ir_operations": [node]})
+    c = N.IRConst("c1", "signal-A"); add(c)
+    c = N.IRConst("c2", "__bundle"); c.signals = {"signal-B": 3, "signal-C": 4}; add(c)
+    x = N.IRArith("a1", "signal-A"); x.left, x.right = ref("signal-B"), ref("signal-C"); add(x)
+    x = N.IRArith("a2", "signal-each"); x.left = N.BundleRef({"signal-D", "signal-E"}, "b"); x.right = 2; add(x)
+    d = N.IRDecider("d1", "signal-A"); d.left, d.right, d.output_value = ref("signal-B"), ref("signal-C"), ref("signal-D"); add(d)
+    d = N.IRDecider("d2", "signal-A")
+    d.conditions = [N.DeciderCondition(comparator=">", first_operand=ref("signal-B"), second_operand=3),
+                    N.DeciderCondition(comparator="<", compare_type="and", first_operand=4, second_operand=ref("signal-C"))]
+    add(d)
+    m = N.IRWireMerge("m1", "signal-A"); m.sources = [ref("signal-A"), ref("signal-B")]; add(m)
+    add(N.IRMemCreate("mem1", "signal-C", None))
+    add(N.IRMemWrite("mem1", ref("signal-D"), ref("signal-W"), None))
+    add(N.IRLatchWrite("mem2", ref("signal-A"), ref("signal-B"), ref("signal-C"), N.MEMORY_TYPE_SR_LATCH, None,
+                       set_condition=(ref("signal-D"), "<", 3), reset_condition=(ref("signal-E"), ">", 9)))
+    add(N.IRPlaceEntity("e1", "small-lamp", ref("signal-A"), 2, {"p": ref("signal-B"), "nested": {"q": [ref("signal-C")]}}))
+    w = N.IREntityPropWrite("e1", "enable", ref("signal-D")); w.inline_bundle_condition = {"signal": "signal-everything", "operator": "<", "constant": 0,
+                                                                                       "input_source": N.BundleRef({"signal-E"}, "bb")}
+    add(w)
+    add(N.IRMemRead("r1", "signal-B"))
+    return cases
